@@ -28,6 +28,10 @@ type PartOpt struct {
 	// Unstable: the property itself is about run-to-run differences (determinism), so an observed
 	// failure is reported without demanding that it reproduces identically.
 	Unstable bool
+	// SameSig: a failure counts as reproduced when the re-execution fails with the same signature, whatever the
+	// details say (the property is about state shared inside the process, so where exactly a divergence shows may
+	// depend on what ran before in this process)
+	SameSig bool
 	// History > 0: the environment is deliberately reused from case to case (so cases also start
 	// from non-initial states). Each worker remembers up to History cases executed on its
 	// environment since it was created; a failure that does not reproduce on a fresh environment
@@ -265,7 +269,7 @@ func Product[C any, E any](r *Report, name string, opt PartOpt, gen func(yield f
 		for i := 0; i < 5 && !opt.Unstable; i++ {
 			l := &Local{outcomes: map[uint64]struct{}{}}
 			f2 := safely(check, l, newEnv(), fc.c)
-			if f2 == nil || f2.Sig != fc.f.Sig || f2.Msg != fc.f.Msg {
+			if f2 == nil || f2.Sig != fc.f.Sig || (f2.Msg != fc.f.Msg && !opt.SameSig) {
 				stable = false
 				if i == 0 && f2 == nil && len(fc.hist) > 0 {
 					// the failure needs the state left behind by earlier cases on the same environment:
